@@ -7,7 +7,7 @@
 (*   Parse(s, p)   generic URI split + query decoding (p: "+" in the query is a space)   *)
 (*   Inside(a, b)  a (published) lies inside b (filter location)                         *)
 (* The EMPTY TEXT IS THE ABSENT ELEMENT (acceptance decision: '' and None are the same). *)
-(* Three enumerated domains, one TLC run each (Init-only behaviours, one state per case):*)
+(* Three enumerated domains (Init-only behaviours, one state per case):                  *)
 (*   LocCases      64 presence patterns x value classes x shapes x absent modes          *)
 (*   ForeignCases  scheme x authority x path shape x query class x fragment              *)
 (*   IdentCases    the Identification shapes a provider can put into its own state       *)
@@ -26,15 +26,16 @@ VARIABLES case,   \* the abstract case (a record of class names / small numbers)
 (* ------------------------------------------------------------------ generic text *)
 RECURSIVE CatFrom(_, _)
 CatFrom(ss, i) == IF i > Len(ss) THEN <<>> ELSE ss[i] \o CatFrom(ss, i + 1)
-Cat(ss) == CatFrom(ss, 1)
+\* ("\o <<>>" turns a lazily applied function constructor into an evaluated tuple)
+Cat(ss) == CatFrom(ss \o <<>>, 1)
 
 Join(ss, sep) == Cat([i \in 1..Len(ss) |-> IF i = 1 THEN ss[i] ELSE sep \o ss[i]])
 
-RECURSIVE FindFrom(_, _, _)
-FindFrom(s, c, i) == IF i > Len(s) THEN 0 ELSE IF s[i] = c THEN i ELSE FindFrom(s, c, i + 1)
-Find(s, c) == FindFrom(s, c, 1)       \* index of the first c in s, 0 if there is none
+MinOr0(I) == IF I = {} THEN 0 ELSE CHOOSE i \in I : \A j \in I : i <= j
+Find(s, c) == MinOr0({i \in 1..Len(s) : s[i] = c})       \* index of the first c in s, 0 if there is none
 
-\* (TLC re-evaluates a LET definition at every use: intermediate results are passed as operator arguments)
+\* (intermediate results are passed on as operator arguments instead of LET chains: TLC may evaluate a LET
+\* definition again at every use)
 RECURSIVE Split(_, _)
 SplitAt(s, c, i) == IF i = 0 THEN <<s>> ELSE <<SubSeq(s, 1, i - 1)>> \o Split(SubSeq(s, i + 1, Len(s)), c)
 Split(s, c) == SplitAt(s, c, Find(s, c))      \* like str.split: Split("", c) = <<"">>
@@ -142,7 +143,7 @@ SplitUrl(s) == SplitUrlAt(s, Find(s, 58))     \* [scheme (lower case), auth (has
 
 QPairAt(p, plus, i) == IF i = 0 THEN [ok |-> FALSE, k |-> <<>>, v |-> <<>>]
                        ELSE [ok |-> TRUE, k |-> Dec(SubSeq(p, 1, i - 1), plus), v |-> Dec(SubSeq(p, i + 1, Len(p)), plus)]
-QPairs(pieces, plus) == [i \in 1..Len(pieces) |-> QPairAt(pieces[i], plus, Find(pieces[i], 61))]
+QPairs(pieces, plus) == [i \in 1..Len(pieces) |-> QPairAt(pieces[i], plus, Find(pieces[i], 61))] \o <<>>
 \* a pair without "=" or with an empty value says nothing; of repeated keys the last one counts
 LastOf(pairs, idx) == IF idx = {} THEN <<>> ELSE pairs[SetMax(idx)].v
 ValueOf(pairs, e) == LastOf(pairs, {i \in 1..Len(pairs) : pairs[i].ok /\ pairs[i].k = KeyCP[e] /\ pairs[i].v # <<>>})
@@ -174,11 +175,13 @@ ClassSeq == <<"alnum", "marks", "colon", "slash", "qmark", "hash", "lbrack", "rb
               "amp", "apos", "lpar", "rpar", "star", "plus", "comma", "semi", "eq", "pct", "pctseq", "pct2f",
               "space", "tab", "lf", "unsafe", "latin", "bmp", "nonbmp", "mixed">>
 AllClasses == {ClassSeq[i] : i \in 1..Len(ClassSeq)}
-QuickClasses == {"alnum", "slash", "qmark", "hash", "amp", "plus", "eq", "pct", "pct2f", "space", "nonbmp", "mixed"}
+QuickClasses == {"alnum", "slash", "amp", "plus", "space", "mixed"}
 ClassIdx(c) == CHOOSE i \in 1..Len(ClassSeq) : ClassSeq[i] = c
 RotClass(c, i) == ClassSeq[((ClassIdx(c) + i - 1) % Len(ClassSeq)) + 1]
 
-LocCases == [kind : {"loc"}, pat : 0..63, cls : Classes, shape : Shapes, absent : AbsentModes]
+\* absent = "empty" (the harness passes '' instead of None) is enumerated for the "mid" shape only
+LocCases == {c \in [kind : {"loc"}, pat : 0..63, cls : Classes, shape : Shapes, absent : AbsentModes] :
+               c.absent = "empty" => c.shape = "mid"}
 
 Value(c, i) == IF ~Bit(c.pat, i) THEN <<>>
                ELSE CASE c.shape = "solo" -> ClassChars[c.cls]
@@ -311,17 +314,25 @@ IdentJudged(c) == c.id \in {"fallback", "two"}
 (* ------------------------------------------------------------------ behaviours: one state per case *)
 Emit(payload) == PrintT(<<"CASE", ToJson(payload)>>)
 
-InitLoc == case \in LocCases /\ loc = LocOf(case)
-InitForeign == case \in ForeignCases /\ loc = AllAbsent
-InitIdent == case \in IdentCases /\ loc = IdentLoc(case)
+Init == \/ case \in LocCases /\ loc = LocOf(case)
+        \/ case \in ForeignCases /\ loc = AllAbsent
+        \/ case \in IdentCases /\ loc = IdentLoc(case)
+InitIdent == case \in IdentCases /\ loc = IdentLoc(case)      \* small run (replay mode: only the PLAN is needed)
 Next == FALSE /\ UNCHANGED <<case, loc>>
-SpecLoc == InitLoc /\ [][Next]_<<case, loc>>
-SpecForeign == InitForeign /\ [][Next]_<<case, loc>>
+Spec == Init /\ [][Next]_<<case, loc>>
 SpecIdent == InitIdent /\ [][Next]_<<case, loc>>
 
-EmitLoc == Emit(LocPayload(case, loc))
-EmitForeign == Emit(ForeignPayload(case))
-EmitIdent == Emit(IdentPayload(case))
+EmitCase == CASE case.kind = "loc" -> Emit(LocPayload(case, loc))
+              [] case.kind = "foreign" -> Emit(ForeignPayload(case))
+              [] case.kind = "ident" -> Emit(IdentPayload(case))
+
+\* the laws, each on its own domain
+LawRoundTrip == case.kind = "loc" => RoundTripLaw
+LawWiden == case.kind = "loc" => WidenLaw
+LawChange == case.kind = "loc" => ChangeLaw
+LawPresence == case.kind = "loc" => PresenceLaw
+LawForeign == case.kind = "foreign" => (ForeignLaw /\ GoodLaw)
+LawIdent == case.kind = "ident" => IdentLaw
 
 ASSUME PrintT(<<"PLAN", ToJson([nw |-> NW, nc |-> NC, change |-> ChangePlan])>>)
 =============================================================================
